@@ -436,3 +436,41 @@ func withBuildOrder(prep func(u *tls.UConn) error, order int) func(u *tls.UConn)
 		return u.BuildHandshakeState()
 	}
 }
+
+// replayedHybridShare: the parrot's spec with the hybrid key share's data pre-filled from a capture
+// (a replayed fingerprint): uTLS then has no private key for that share, and a server selecting
+// it must get an error from the client, not a crash.
+func replayedHybridShare(base NamedID) gridClient {
+	return gridClient{Name: base.Name + "+replayed-hybrid-share", ID: tls.HelloCustom, Spec: func() (*tls.ClientHelloSpec, error) {
+		// capture the share of a throw-away connection
+		stream, _, _, _ := firstFlight(peer.ClientConfig("example.com"), base.ID, nil)
+		var captured []byte
+		if msg, _, err := wire.FirstFlightHello(stream); err == nil {
+			if h, err := wire.ParseClientHello(msg); err == nil {
+				if e := h.Find(51); e != nil {
+					if ks, err := wire.ParseKeyShares(e.Body); err == nil {
+						for _, k := range ks {
+							if len(k.Data) > 1000 {
+								captured = k.Data
+							}
+						}
+					}
+				}
+			}
+		}
+		sp, err := tls.UTLSIdToSpec(base.ID)
+		if err != nil {
+			return nil, err
+		}
+		for _, e := range sp.Extensions {
+			if ks, ok := e.(*tls.KeyShareExtension); ok {
+				for i := range ks.KeyShares {
+					if ks.KeyShares[i].Group == tls.X25519MLKEM768 && captured != nil {
+						ks.KeyShares[i].Data = captured
+					}
+				}
+			}
+		}
+		return &sp, nil
+	}}
+}
